@@ -197,4 +197,65 @@ theorem zipReplace_inert (it : Iter) (a1 a2 : ArraySized) (e1 e2 : Buf Nat) (m :
   · rfl
   · rename_i hh; rw [if_neg hh] at hst; exact absurd rfl hst
 
+/-! ### zip_iter_add with the same array on both sides (after repair A11) -/
+/-- `zip_iter_add(a, a, e1, e2)`: both elements are inserted at the cursor (the second in front of the
+first) and the cursor advances; or an allocation was refused / the size limit reached — in the growth
+pre-check or in the growth the *second* `add_at` needs — and then the content is exactly what it was
+(the first element has been taken out again), the cursor has not moved and the ledger is balanced;
+the buffer may have been re-allocated on the way, so the capacity may be larger than before -/
+theorem zipAddSame_spec (it : Iter) (a : ArraySized) (e1 e2 : Buf Nat) (m : Mem) (h : a.Inv)
+    (he1 : e1.length = a.dataLen) (he2 : e2.length = a.dataLen) (hi : it.index ≤ a.size) :
+    ((zipAddSame it a e1 e2 m).1 = .ok ∧
+      (zipAddSame it a e1 e2 m).2.2.1.abs = (a.abs.insertIdx it.index e1).insertIdx it.index e2 ∧
+      (zipAddSame it a e1 e2 m).2.1 = { it with index := it.index + 1 } ∧
+      (zipAddSame it a e1 e2 m).2.2.1.Inv ∧ MemSame a.triple m (zipAddSame it a e1 e2 m).2.2.2) ∨
+    (((zipAddSame it a e1 e2 m).1 = .errAlloc ∨ (zipAddSame it a e1 e2 m).1 = .errMaxCapacity) ∧
+      (zipAddSame it a e1 e2 m).2.2.1.abs = a.abs ∧ (zipAddSame it a e1 e2 m).2.1 = it ∧
+      (zipAddSame it a e1 e2 m).2.2.1.Inv ∧ MemSame a.triple m (zipAddSame it a e1 e2 m).2.2.2 ∧
+      a.capacity ≤ (zipAddSame it a e1 e2 m).2.2.1.capacity) := by
+  unfold zipAddSame
+  dsimp only
+  rw [zipRoom_eq a m h]
+  rcases ensureRoom_spec a m h with ⟨p1, p2, p3, p4, p5, p6, p7, p8, p9, _⟩ | ⟨p1, p2, p3, _⟩
+  · generalize a.ensureRoom m = r1 at *
+    obtain ⟨st1, b1, m1⟩ := r1
+    dsimp only at *
+    subst p1
+    simp only [ne_eq, not_true_eq_false, if_false]
+    have ht1 : b1.triple = a.triple := congrArg Prod.snd p6
+    rw [if_neg (show ¬ b1.size = b1.capacity by omega)]
+    simp only [not_true_eq_false, if_false]
+    have hi1 : it.index ≤ b1.size := by omega
+    rcases addAt_spec b1 e1 it.index m1 p2 (by rw [p5]; exact he1) hi1 with ⟨u1, u2, u3, u4, u5, u6, u7, _⟩ | ⟨_, _, _, u4, _⟩
+    · rw [if_neg (by rw [u1]; simp)]
+      have hsz1 : (b1.addAt e1 it.index m1).2.1.size = b1.size + 1 := by
+        have := abs_length (b1.addAt e1 it.index m1).2.1
+        rw [u3, List.length_insertIdx, if_pos (by rw [abs_length]; exact hi1), abs_length] at this
+        omega
+      have ht2 : (b1.addAt e1 it.index m1).2.1.triple = a.triple := (congrArg Prod.snd u5).trans ht1
+      rw [ht1] at u7
+      generalize b1.addAt e1 it.index m1 = r2 at *
+      obtain ⟨st2, c1, m2⟩ := r2
+      dsimp only at *
+      rcases addAt_spec c1 e2 it.index m2 u2 (by rw [u4, p5]; exact he2) (by omega) with
+        ⟨v1, v2, v3, _, _, _, v7, _⟩ | ⟨v1, v2, v3, _⟩
+      · left
+        rw [if_neg (by rw [v1]; simp)]
+        rw [ht2] at v7
+        exact ⟨rfl, by rw [v3, u3, p3], rfl, v2, MemSame.trans p9 (MemSame.trans u7 v7)⟩
+      · right
+        have hne : (c1.addAt e2 it.index m2).1 ≠ .ok := by rcases v1 with v1 | v1 <;> rw [v1] <;> simp
+        rw [if_pos hne, v2]
+        rw [ht2] at v3
+        obtain ⟨w1, w2, w3, w4, w5, _, _, w8, _⟩ := removeAt_spec c1 it.index (c1.addAt e2 it.index m2).2.2 u2 (by omega)
+        refine ⟨v1, ?_, rfl, w4, ?_, ?_⟩
+        · rw [w5, u3, List.eraseIdx_insertIdx_self, p3]
+        · rw [w3]; exact MemSame.trans p9 (MemSame.trans u7 v3)
+        · rw [w8]; omega
+    · omega
+  · right
+    have hne : (a.ensureRoom m).1 ≠ .ok := by rcases p1 with p1 | p1 <;> rw [p1] <;> simp
+    rw [if_pos hne]
+    exact ⟨Or.inl rfl, by rw [p2], rfl, by rw [p2]; exact h, p3, by rw [p2]; exact Nat.le_refl _⟩
+
 end CC.ArraySized
